@@ -2,6 +2,7 @@ package main
 
 import (
 	"fmt"
+	"go/token"
 	"go/types"
 
 	"golang.org/x/tools/go/ssa"
@@ -30,7 +31,7 @@ func runR13_9(c *Ctx, r *R) {
 		rs := sig.Results()
 		for i := 1; i < rs.Len(); i++ {
 			if isErrorType(rs.At(i).Type()) {
-				if b, ok := rs.At(i-1).Type().Underlying().(*types.Basic); ok && b.Kind() == types.Int {
+				if b, ok := rs.At(i - 1).Type().Underlying().(*types.Basic); ok && b.Kind() == types.Int {
 					return i - 1
 				}
 			}
@@ -48,97 +49,131 @@ func runR13_9(c *Ctx, r *R) {
 		r.Unk(fnKey(f)+"/size", f.Pos(), "ParseValue has no size result")
 		return
 	}
-	input := ssa.Value(f.Params[0])
-	type site struct {
-		callee string
-		idx    int
-	}
 	seen := map[string]bool{}
 	n := 0
-	for _, ret := range returnsOf(f) {
-		if len(ret.Results) <= si || ret.Block() == f.Recover {
-			continue
+	// judge: on every successful path of fn the int result #si is the size result of a decoder applied to `input`
+	// (a parameter of fn). A dispatch helper of the package that is handed the input (parseLeaf(typ, n, b)) is
+	// judged the same way on its own returns; a size that is a parameter of the helper is followed to the argument.
+	var judge func(fn *ssa.Function, input ssa.Value, si int, bind map[*ssa.Parameter]ssa.Value, depth int)
+	judgeValue := func(fn *ssa.Function, input ssa.Value, sizeV ssa.Value, at token.Pos, bind map[*ssa.Parameter]ssa.Value, depth int) {
+		if p, isP := sizeV.(*ssa.Parameter); isP && bind != nil {
+			if b, ok := bind[p]; ok {
+				sizeV = b
+				input = nil // judged in the caller's terms: the bound value is already resolved there
+			}
 		}
-		paths, exact := enumBlockPaths(f, ret.Block(), 512)
-		if !exact {
-			r.Unk(fnKey(f)+"/size", ret.Pos(), "too many paths to this return")
-			continue
+		ex, isEx := sizeV.(*ssa.Extract)
+		if !isEx {
+			if k, isK := constInt(sizeV); isK && k == 0 {
+				return // the error exit `n, err = 0, fmt.Errorf(...)`
+			}
+			key := fmt.Sprintf("%s/size-of-decoder:%s", fnKey(f), sizeV.Name())
+			if !seen[key] {
+				seen[key] = true
+				n++
+				r.Bad(key, at, "on a successful path %s reports a size (%s) that is not a result of a decoder call", fn.Name(), sizeV.String())
+			}
+			return
 		}
-		for _, p := range paths {
-			var sizeV, errV ssa.Value
-			ok := walkPath(p, nil, func(ins ssa.Instruction, st *pwState) {
-				if ins == ssa.Instruction(ret) {
-					sizeV = st.resolve(ret.Results[si])
-					errV = st.resolve(ret.Results[len(ret.Results)-1])
+		call, isCall := ex.Tuple.(*ssa.Call)
+		if !isCall {
+			return
+		}
+		callee := c.calleeOf(&call.Call)
+		if callee != nil && callee.Blocks != nil && callee.Pkg == fn.Pkg && !token.IsExported(callee.Name()) && depth < 3 && input != nil {
+			// a dispatch helper that is handed the input
+			for j, a := range call.Call.Args {
+				if a == input && j < len(callee.Params) {
+					b2 := map[*ssa.Parameter]ssa.Value{}
+					for k2, a2 := range call.Call.Args {
+						if k2 < len(callee.Params) && k2 != j {
+							b2[callee.Params[k2]] = a2
+						}
+					}
+					judge(callee, callee.Params[j], ex.Index, b2, depth+1)
+					return
 				}
-			}, nil)
-			if !ok || sizeV == nil {
+			}
+		}
+		name := "?"
+		want := -1
+		if callee != nil {
+			name = fnKey(callee)
+			want = sizeIdx(callee.Signature)
+		}
+		key := fmt.Sprintf("%s/size-of-decoder:%s", fnKey(f), name)
+		if seen[key] {
+			return
+		}
+		seen[key] = true
+		n++
+		switch {
+		case callee == nil:
+			r.Unk(key, call.Pos(), "decoder call could not be resolved")
+		case input != nil && (len(call.Call.Args) == 0 || call.Call.Args[0] != input):
+			r.Bad(key, call.Pos(), "the size reported by %s comes from %s applied to something other than the parser's whole input", fn.Name(), callee.Name())
+		case ex.Index != want:
+			r.Bad(key, call.Pos(), "%s reports result #%d of %s as the size of the value, its size is result #%d (the int before the error): the parser accepts the value with a size the probe does not report and returns a slice that does not start at the value's first byte", fn.Name(), ex.Index, callee.Name(), want)
+		default:
+			r.OK(key, call.Pos(), "size = result #%d of %s(b)", want, callee.Name())
+		}
+	}
+	judge = func(fn *ssa.Function, input ssa.Value, si int, bind map[*ssa.Parameter]ssa.Value, depth int) {
+		for _, ret := range returnsOf(fn) {
+			if len(ret.Results) <= si || ret.Block() == fn.Recover {
 				continue
 			}
-			// only successful returns
-			if !isNilConst(errV) {
-				if _, isTail := sizeV.(*ssa.Extract); !isTail || tailCallOf(ret) == nil {
+			paths, exact := enumBlockPaths(fn, ret.Block(), 512)
+			if !exact {
+				r.Unk(fnKey(f)+"/size", ret.Pos(), "too many paths to a return of %s", fn.Name())
+				continue
+			}
+			for _, p := range paths {
+				var sizeV, errV ssa.Value
+				tail := tailCallOf(ret)
+				ok := walkPath(p, nil, func(ins ssa.Instruction, st *pwState) {
+					if ins == ssa.Instruction(ret) {
+						if tail == nil || sizeV == nil {
+							sizeV = st.resolve(ret.Results[si])
+						}
+						errV = st.resolve(ret.Results[len(ret.Results)-1])
+					}
+					if tail != nil && ins == ssa.Instruction(tail) {
+						// `return helper(b, n, err)`: the size handed to the helper is judged
+						for i, a := range tail.Call.Args {
+							if b, isB := a.Type().Underlying().(*types.Basic); isB && b.Kind() == types.Int && i > 0 {
+								sizeV = st.resolve(a)
+							}
+						}
+					}
+				}, nil)
+				if !ok || sizeV == nil {
 					continue
 				}
-			}
-			if call := tailCallOf(ret); call != nil {
-				// `return helper(b, n, err)`: the size handed to the helper is judged (argument of int type)
-				for i, a := range call.Call.Args {
-					if b, ok := a.Type().Underlying().(*types.Basic); ok && b.Kind() == types.Int && i > 0 {
-						st2 := a
-						ok2 := walkPath(p, nil, func(ins ssa.Instruction, st *pwState) {
-							if ins == ssa.Instruction(call) {
-								st2 = st.resolve(a)
-							}
-						}, nil)
-						if ok2 {
-							sizeV = st2
+				if tail == nil && !isNilConst(errV) {
+					// a return that forwards an error value: successful only where that value is nil; the size is
+					// judged all the same when it is a call result (n, err := decoder(b); return n, err)
+					if _, isEx := sizeV.(*ssa.Extract); !isEx {
+						if _, isP := sizeV.(*ssa.Parameter); !isP {
+							continue
+						}
+					}
+					if knownNonNil(errV) {
+						continue
+					}
+				}
+				if tail != nil {
+					if _, stillTuple := sizeV.(*ssa.Extract); stillTuple {
+						if ex := sizeV.(*ssa.Extract); ex.Tuple == ssa.Value(tail) {
+							continue // handled through the argument above only when one was found
 						}
 					}
 				}
-			}
-			ex, isEx := sizeV.(*ssa.Extract)
-			if !isEx {
-				if k, isK := constInt(sizeV); isK && k == 0 {
-					continue // the error exit `n, err = 0, fmt.Errorf(...)`
-				}
-				key := fmt.Sprintf("%s/size-of-decoder:%s", fnKey(f), sizeV.Name())
-				if !seen[key] {
-					seen[key] = true
-					n++
-					r.Bad(key, ret.Pos(), "on a successful path ParseValue reports a size (%s) that is not a result of a decoder call", sizeV.String())
-				}
-				continue
-			}
-			call, isCall := ex.Tuple.(*ssa.Call)
-			if !isCall {
-				continue
-			}
-			callee := c.calleeOf(&call.Call)
-			name := "?"
-			want := -1
-			if callee != nil {
-				name = fnKey(callee)
-				want = sizeIdx(callee.Signature)
-			}
-			key := fmt.Sprintf("%s/size-of-decoder:%s", fnKey(f), name)
-			if seen[key] {
-				continue
-			}
-			seen[key] = true
-			n++
-			switch {
-			case callee == nil:
-				r.Unk(key, call.Pos(), "decoder call could not be resolved")
-			case len(call.Call.Args) == 0 || call.Call.Args[0] != input:
-				r.Bad(key, call.Pos(), "the size reported by ParseValue comes from %s applied to something other than ParseValue's whole input", callee.Name())
-			case ex.Index != want:
-				r.Bad(key, call.Pos(), "ParseValue reports result #%d of %s as the size of the value, its size is result #%d (the int before the error): the parser accepts the value with a size the probe does not report and returns a slice that does not start at the value's first byte", ex.Index, callee.Name(), want)
-			default:
-				r.OK(key, call.Pos(), "size = result #%d of %s(b)", want, callee.Name())
+				judgeValue(fn, input, sizeV, ret.Pos(), bind, depth)
 			}
 		}
 	}
+	judge(f, ssa.Value(f.Params[0]), si, nil, 0)
 	if n == 0 {
 		r.Unk(fnKey(f)+"/size", f.Pos(), "no successful return found")
 	}
